@@ -418,8 +418,8 @@ func oracleC07(t *Trace, v *vset) {
 
 // oracleC07r2: inside the window in which the scope executes sequences and as
 // long as no run has failed, the gap between the end of one run of the
-// continuous check and the start of the next never exceeds Delay (+ injected
-// delays, which are excluded by only checking runs without delay faults).
+// continuous check and the start of the next never exceeds 2*Delay + storage time
+// (+ injected delays, which are excluded by only checking runs without delay faults).
 func oracleC07r2(t *Trace, l *Layout, scope, lvl string, v *vset) {
 	if t.Res.Faults["delay"] > 0 {
 		return // delay faults stretch gaps legitimately; covered by the fault-free configurations
@@ -431,11 +431,15 @@ func oracleC07r2(t *Trace, l *Layout, scope, lvl string, v *vset) {
 	_ = from2
 	_ = to2
 	cs := l.ByPath[groupPath(scope, "cont")].Checks
-	delay := int64(cs.DelayMs) * 1e6
+	acts := l.GroupActions(scope, "cont")
+	// The statement only says "keeps being re-run": the bound is deliberately loose
+	// (twice the configured Delay plus the simulated duration of the writes a run
+	// makes), so that it encodes neither the exact cadence of the loop nor storage time.
+	delay := 2 * int64(cs.DelayMs) * 1e6
 	if delay <= 0 {
 		delay = 1
 	}
-	acts := l.GroupActions(scope, "cont")
+	delay += int64(8+4*len(acts)) * t.Res.Spec.Policy.WriteLatUs * 1000
 	// group-level runs: run k of the group = k-th run of each action (they run in parallel)
 	type grun struct {
 		startT, endT int64
@@ -479,7 +483,7 @@ func oracleC07r2(t *Trace, l *Layout, scope, lvl string, v *vset) {
 		if prevEnd >= 0 && prevEnd >= fromT {
 			// gap (prevEnd, g.startT) must be <= delay if it lies inside the window
 			if g.startT-prevEnd > delay && prevEnd+delay < toT {
-				v.addf("C07", "C07.r2", lvl+" continuous check not re-run within its Delay while sequences execute", []int{g.seq}, "%s: next run started %s after the previous one ended (Delay %s)", groupPath(scope, "cont"), fmtT(g.startT-prevEnd), fmtT(delay))
+				v.addf("C07", "C07.r2", lvl+" continuous check not re-run within twice its Delay while sequences execute", []int{g.seq}, "%s: next run started %s after the previous one ended (Delay %s)", groupPath(scope, "cont"), fmtT(g.startT-prevEnd), fmtT(delay))
 				return
 			}
 		}
